@@ -78,7 +78,7 @@ namespace sim
       /* reserve */ 2, /* shrink */ 2, /* resize */ 2, /* resize_val */ 2,
       /* append_range */ 3, /* append_ilist */ 1, /* append_copy_sv */ 2, /* append_move_sv */ 2,
       /* at */ 1, /* compare */ 1, /* nm_access */ 1, /* emplace_cref_alias */ 1,
-      /* emplace_back_cref_alias */ 1
+      /* emplace_back_cref_alias */ 1, /* emplace_member_alias */ 1
     };
     return wts;
   }
@@ -99,7 +99,7 @@ namespace sim
         return 1;
       case P11:
         return ((K_INSERT_COPY_ALIAS <= k && k <= K_RESIZE_VAL_ALIAS) || k == K_EMPLACE_CREF_ALIAS
-                || k == K_EMPLACE_BACK_CREF_ALIAS) ? 8 : 1;
+                || k == K_EMPLACE_BACK_CREF_ALIAS || k == K_EMPLACE_MEMBER_ALIAS) ? 8 : 1;
       case P15:
         return (k == K_CTOR_RANGE || k == K_ASSIGN_RANGE || k == K_INSERT_RANGE
                 || k == K_APPEND_RANGE || k == K_CTOR_GEN) ? 5 : 1;
@@ -151,7 +151,7 @@ namespace sim
     {
       switch (fcls)
       {
-        case 0:  o.f.mask = 1u << EV_ALLOC; break;
+        case 0:  o.f.mask = (1u << EV_ALLOC) | (1u << EV_ALLOC_CONSTRUCT); break;
         case 1:  o.f.mask = MASK_CTORS; break;
         case 2:  o.f.mask = (1u << EV_ASSIGN_COPY) | (1u << EV_ASSIGN_MOVE) | (1u << EV_SWAP); break;
         case 3:  o.f.mask = (1u << EV_ITER_DEREF) | (1u << EV_ITER_INC) | (1u << EV_GEN_CALL)
@@ -160,6 +160,11 @@ namespace sim
       }
       if (! stream_faults)
         o.f.mask &= ~((1u << EV_ITER_DEREF) | (1u << EV_ITER_INC) | (1u << EV_GEN_CALL));
+      // C17 compares traces across language standards: the NUMBER of element comparisons behind
+      // one container comparison is not standard-independent (C++20 goes through operator<=>, and
+      // the harness calls <=> in addition), so a "k-th comparison throws" plan is not either
+      if (prop == 17)
+        o.f.mask &= ~(1u << EV_COMPARE);
       o.f.k = static_cast<std::int32_t> (fwide == 0 ? fk2 : fk);
       if (f2 == 0)
       {
